@@ -457,6 +457,42 @@ class PropBase:
         self.known_lines = []
         self.notes = []
 
+    FALLBACK_PASSES = 2
+
+    def gen_refs(self):
+        """Gen/*.v files referenced (textually) from the dependency closure of the property's theorems and model"""
+        refs, seen, todo = set(), set(), [self.PROPS, 'Extract/Extr%s.v' % self.ID]
+        while todo:
+            f = todo.pop()
+            if f in seen:
+                continue
+            seen.add(f)
+            p = os.path.join(COQ, f)
+            if f.startswith('Gen/'):
+                refs.add(f)
+                if not os.path.exists(p):
+                    p = os.path.join(COQ, 'Gen.pinned', os.path.basename(f))
+            if not os.path.exists(p):
+                continue
+            txt = strip_comments(open(p).read())
+            for m in re.finditer(r'\b((?:SCMO\.)?(?:Lib|Gen|Model|Proofs|Props)\.[A-Za-z0-9_]+)\b', txt):
+                name = m.group(1)
+                if name.startswith('SCMO.'):
+                    name = name[5:]
+                todo.append(name.replace('.', '/') + '.v')
+        return sorted(refs)
+
+    def use_pinned_gen(self):
+        refs = self.gen_refs()
+        pins = [os.path.join(COQ, 'Gen.pinned', os.path.basename(f)) for f in refs]
+        if not refs or not all(os.path.exists(p) for p in pins):
+            return False
+        for f, p in zip(refs, pins):
+            dst = os.path.join(COQ, f)
+            if not os.path.exists(dst) or open(dst).read() != open(p).read():
+                shutil.copy(p, dst)
+        return True
+
     # -- hooks for subclasses
     def regen(self):
         """T: regenerate coq/Gen files from REPO. return list of metadata dicts. May raise Untranslatable."""
@@ -493,12 +529,27 @@ class PropBase:
         from py2coq import Untranslatable
         pid = self.ID
         gen_meta = []
+        self.fallback = None
+        refusal = None
         try:
             gen_meta = self.regen() or []
         except Untranslatable as e:
-            self.breaks.append(('translator', 'py2coq refused the current source: %s' % e))
+            refusal = 'py2coq refused the current source: %s' % e
         except Exception as e:  # fail closed
-            self.breaks.append(('translator', 'regeneration failed: %r' % (e,)))
+            refusal = 'regeneration failed: %r' % (e,)
+        if refusal is not None:
+            # The translator recognises source *shapes*; a restructured source is refused although it may compute the
+            # same thing.  The tie then falls back to the second admissible kind (DESIGN 2.2/12): the last translation
+            # of the pinned tree (coq/Gen.pinned, committed) becomes a hand-held model, the theorems are re-checked
+            # about it, and the correspondence check K - run with extra passes - must tie it to the current code.
+            # Any disagreement, proof failure or specification violation is handled exactly as before.
+            if os.environ.get('VERIF_NO_FALLBACK') != '1' and self.use_pinned_gen():
+                self.fallback = refusal
+                self.notes.append('translator tie unavailable (%s); fell back to the pinned translation + '
+                                  'correspondence check with %d extra passes' % (refusal[:300], self.FALLBACK_PASSES))
+                gen_meta = [{'fallback': 'Gen.pinned', 'reason': refusal[:500]}]
+            else:
+                self.breaks.append(('translator', refusal))
         self.cov['generated'] = gen_meta
         # proofs
         obligations, discharged, axioms = 0, 0, []
@@ -561,6 +612,26 @@ class PropBase:
                 self.correspondence()
         except Broken as b:
             self.breaks.append((b.kind, b.detail))
+        if self.fallback and not self.breaks:
+            # translator tie replaced by correspondence: spend more on it (fresh generator streams)
+            keep = ('generated', 'obligations', 'discharged', 'theorems', 'axioms_reported_by_Print_Assumptions',
+                    'coqchk', 'coqchk_axioms')
+            total = self.cov.get('evaluations') or 0
+            for k in range(1, self.FALLBACK_PASSES + 1):
+                self.rng = random.Random(self.seed * 1000003 + 7919 * k)
+                self.cov = {a: b for a, b in self.cov.items() if a in keep}
+                try:
+                    self.correspondence()
+                except Broken as b:
+                    self.breaks.append((b.kind, b.detail))
+                except (subprocess.TimeoutExpired, RuntimeError, OSError) as e:
+                    self.breaks.append(('correspondence', 'extra correspondence pass %d aborted: %r' % (k, e)))
+                if isinstance(self.cov.get('evaluations'), int) and isinstance(total, int):
+                    total += self.cov['evaluations']
+                if self.breaks:
+                    break
+            self.cov['evaluations_all_passes'] = total
+            self.cov['tie'] = 'correspondence only (translator refused the source; pinned translation used as the model)'
         # findings & search
         findings = load_findings(pid)
         for f in findings:
